@@ -145,7 +145,7 @@ class StaticThresholdModel(darsia.Model):
         Returns:
             np.ndarray: boolean mask
         """
-        threshold_mask = np.zeros(self._labels.shape[:2], dtype=bool)
+        threshold_mask = np.zeros(self._labels.shape, dtype=bool)
         for i, label in enumerate(np.unique(self._labels)):
             threshold_mask_i = img > self._threshold_lower[i]
             if self._threshold_upper is not None:
